@@ -40,6 +40,7 @@ type (
 	NStrs  []string
 	NDict  map[string]any
 	NKMap  map[NTitle]int
+	NUint  uint16
 )
 
 // EmbedInner / EmbedOuter: Count is promoted from an embedded pointer that may be nil.
@@ -160,6 +161,10 @@ func Universe() []UVal {
 		{Name: "embednil", Go: EmbedOuter{Name: "outer"}, Small: true}, {Name: "embednilptr", Go: &EmbedOuter{}}, {Name: "embedset", Go: EmbedOuter{EmbedInner: &EmbedInner{Count: 4}}},
 		{Name: "mapslicekeys", Go: yaml.MapSlice{{Key: []int{3, 1, 2}, Value: "slicekey"}, {Key: map[string]any{"a": 1}, Value: 2}, {Key: "a", Value: 3}, {Key: []string{"b", "a"}, Value: 4}}, Small: true},
 		{Name: "uintptr", Go: uintptr(7)},
+		{Name: "mu8key", Go: map[uint8]string{1: "a", 200: "b", 255: "c"}, Small: true}, {Name: "mu64key", Go: map[uint64]string{1: "one", 1 << 63: "mid", math.MaxUint64: "max", 5: "five"}},
+		{Name: "manyukey", Go: map[any]any{uint(3): "u3", uint8(2): "u2", -1: "m1", uint64(math.MaxUint64): "max", 1.5: "f"}}, {Name: "mnukey", Go: map[NUint]int{7: 1, 3: 2}},
+		{Name: "mi8key", Go: map[int8]int{-128: 1, 127: 2, 0: 3}}, {Name: "mboolkey", Go: map[bool]string{true: "t", false: "f"}}, {Name: "mfloatkey", Go: map[float64]string{1.5: "a", -0.5: "b", 1e300: "c"}},
+		{Name: "u64mid", Go: uint64(1) << 63}, {Name: "umaxslice", Go: []uint64{math.MaxUint64, 0, 1 << 63}}, {Name: "mixedsign", Go: []any{uint8(200), -7, uint64(math.MaxUint64), -1, uint(3), 2}, Small: true},
 		{Name: "fn", Go: func() any { return 1 }},
 		{Name: "chan", Go: make(chan int)},
 		{Name: "complex", Go: complex(1, 2)},
